@@ -24,7 +24,8 @@ from ..vloop import VLoop
 ID = 'C11'
 
 PORT_VALUES = (ABSENT, 1, 'a', -1)
-EXTRAS = (None, ('u', 1), ('u', 'a'), ('u', (('v', 1),)), ('u', (('v', 'a'),)))
+EXTRAS = (None, ('u', 1), ('u', 'a'), ('u', (('v', 1),)), ('u', (('v', 'a'),)), ('u', ''), ('u', 0), ('u', (('v', ''),)))
+# ('' and 0 are the falsy representatives: a wrong-typed and a well-typed one for an int-typed dynamic namespace)
 
 
 def default_for(type_name: Any) -> Any:
@@ -104,7 +105,7 @@ def values_for(e: tuple, depth: int = 0) -> List[Any]:
     per_entry = [values_for(sub, depth + 1) for _, sub in e[5]]
     for combo in itertools.product(*per_entry):
         base = tuple((n, v) for n, v in zip(names, combo) if v is not ABSENT)
-        for extra in (EXTRAS if depth < 2 else EXTRAS[:3]):
+        for extra in (EXTRAS if depth < 2 else EXTRAS[:3] + EXTRAS[5:6]):
             out.append(('map', base + ((extra,) if extra is not None else ())))
     return out
 
